@@ -203,6 +203,29 @@ def _cli_part(R, part, only):
                 cs2, bins2 = parse_bins(bed)
                 if _df_bins(bins2) != want or list(cs2.index) != names or [int(x) for x in cs2] != list(sizes):
                     R.mismatch("parse_bins(bed)!=ref", inner, f"got={_df_bins(bins2)} cs={cs2.to_dict()}")
+                # to stdout, with a header line and a per-chromosome running number (0- or 1-based): the three bin columns stay what
+                # they are, the number restarts at each chromosome
+                for rel in (None, 0, 1):
+                    if (k + (rel or 0)) % 3 and rel is not None:
+                        continue
+                    args = ["makebins", fn, str(w), "-H"] + (["--rel-ids", rel] if rel is not None else [])
+                    code, out, exc = build.cli(args)
+                    if code != 0 or exc is not None:
+                        R.mismatch("makebins-fails", {**inner, "args": args[3:]}, f"code={code} exc={exc!r}")
+                        continue
+                    rows = [ln.split("\t") for ln in out.splitlines()]
+                    hdr, rows = rows[0], rows[1:]
+                    if hdr != ["chrom", "start", "end"] + (["id"] if rel is not None else []):
+                        R.mismatch("makebins:header", {**inner, "args": args[3:]}, f"{hdr}")
+                    if [(r[0], int(r[1]), int(r[2])) for r in rows] != want:
+                        R.mismatch("makebins!=ref", {**inner, "args": args[3:]}, f"got={rows[:4]} want={want[:4]}")
+                    if rel is not None:
+                        wid, seen = [], {}
+                        for c, _, _ in want:
+                            wid.append(seen.get(c, 0) + rel)
+                            seen[c] = seen.get(c, 0) + 1
+                        if [int(r[3]) for r in rows] != wid:
+                            R.mismatch("makebins:--rel-ids", {**inner, "args": args[3:]}, f"got={[r[3] for r in rows]} want={wid}")
             except Exception as e:
                 R.mismatch("raises:" + type(e).__name__, inner, f"{e!s:.200}")
     scratch.rm(d)
